@@ -168,6 +168,15 @@ def c15():
     r = _first(recs, lambda r: r["y"][0] != 0 and len(r["y"][1]) >= 3)
     r["y"][1][0] = (r["y"][1][0] + 5000) % 10000           # mapped position changed by 5e-6 (x 1e9 units: 5000)
     yield "a mapped position changed by 5e-6", "TimeTrace", "TimeC15.cfg", r, "C15_Proportional"
+    h = [{"a": "D", "i": 1, "x": "dA"}, {"a": "Y", "i": 1, "x": ""}, {"a": "N", "i": 2, "x": "10"}, {"a": "T", "i": 1, "x": "10"}]
+    out = core.run_driver("d_timescale.py", stdin_obj={"seed": 1, "mode": "hist", "histories": [h], "count": 0})
+    r = out["records"][0]
+    r["ev"][2]["obs"][1]["e1"] = 0
+    yield "history: a niced copy no longer maps its reported domain end to its range end", "TimeHistTrace", "TimeHistTrace.cfg", r, "C15_EndpointsMapAfterHistory"
+    r = json.loads(json.dumps(out["records"][0]))
+    r["ev"][2]["obs"][1]["e1"] = 1
+    r["ev"][2]["obs"][0]["d"][0] = "1999-01-01T00:00:00"
+    yield "history: nice() on the copy changed the original's reported domain (model conformance)", "TimeHistTrace", "TimeHistDrift.cfg", r, "Drift_CopyIndependent"
 
 
 def c16():
@@ -223,7 +232,7 @@ def run(pid):
         return 0
     bad = 0
     for what, module, cfg, rec, clause in TABLE[pid]():
-        expect = "init" if module == "VpscTrace" else "distinct"
+        expect = "init" if module in ("VpscTrace", "TimeHistTrace", "LinHistTrace") else "distinct"
         fails, _ = core.validate_records(module, cfg, [rec], expect=expect)
         names = [f[1] for f in fails]
         ok = clause in names
